@@ -217,6 +217,8 @@ def main():
     ncorpus = len(cases)
     cases += g.former_witnesses()
     cases += g.formerly_fatal(rng, 8000 if ck.thorough else (2000 if widen else 1000))
+    cases += g.sysconf_cases(rng, 3000 if ck.thorough else 240)
+    cases += g.odd_variable_cases(rng, 3000 if ck.thorough else 200)
     if ck.thorough:
         for via in ("core", "sys", "http"):
             cases += g.systematic(rng, vias=(via,), deep=deep, stride=1, both=True)
